@@ -467,7 +467,67 @@ example :
     let s : UState := { w := w, self := 1, proxy := 2, viaOuter := false, exits := 1, openExit := 1 }
     scriptOk c = false ∧ (s.run (fun _ _ => false) (fun pc => if pc = 2 then 1 else 0) bad).openExit = 1 := by decide
 
+/-- the (empty) registry of the three endpoint stacks of the model, with the forwarding flags READ FROM THE SOURCE:
+    0 = plain endpoint, 1 = TunnelEndpoint wrapper, 2 = StatisticsEndpoint wrapper -/
+def stackWorld (stack : Nat) : World :=
+  if stack = 2 then { fwdAdd := true, fwdRemove := Gen.statisticsEndpointForwardsRemove }
+  else { fwdAdd := Gen.tunnelEndpointForwardsAdd, fwdRemove := Gen.tunnelEndpointForwardsRemove }
+
+/-- **shipped_overlay_silent_after_unload** — the registry theorems with their hypotheses DISCHARGED for what is shipped:
+    for every generated overlay class, on every endpoint stack (flags as generated), after ANY history of registry operations
+    by other parties, the class's constructor chain (`loadOps`), its generated unload script (any sleep guard, any acquisition
+    adversary) and ANY later history of operations by other parties, the overlay cannot be made to run by a datagram of
+    any prefix from the socket or from a tunnel, through a proxy, or through the endpoint's back reference.  The only
+    hypothesis left is that "other parties" do not re-register the unloaded overlay (`Foreign`). -/
+theorem shipped_overlay_silent_after_unload (c : ClassInfo) (hc : c ∈ Gen.classes) (stack : Nat) (self proxy : Lid)
+    (pfx p : Pfx) (before after : List ROp) (sl : RemKind → Bool → Bool) (acq : Nat → Nat)
+    (hb : ∀ op ∈ before, Foreign self op) (ha : ∀ op ∈ after, Foreign self op) :
+    let viaOuter := decide (stack ≠ 0)
+    let w := ((stackWorld stack).run before).run (loadOps c viaOuter self proxy pfx)
+    let s : UState := { w := w, self := self, proxy := proxy, viaOuter := viaOuter }
+    self ∉ ((s.run sl acq c.script).w.run after).touched p := by
+  intro viaOuter w s
+  have hflag : (stackWorld stack).fwdRemove = true := by
+    have h := tunnel_endpoint_forwards_listener_ops
+    unfold stackWorld
+    split
+    · exact h.2.2
+    · exact h.2.1
+  have hs0 : Silent self (stackWorld stack) := by
+    unfold stackWorld Silent Absent NoFwdTo
+    split <;> simp
+  have hs1 := silent_run before _ hb hs0
+  have hl := loadOps_fwd_ref c viaOuter self proxy pfx ((stackWorld stack).run before) hs1.2.1 hs1.2.2
+  have hrel := unload_releases_everything c (all_unload_scripts_complete c hc) sl acq s
+    (by intro _; show w.fwdRemove = true; rw [run_flags, run_flags]; exact hflag) hl.1 hl.2
+  exact silent_touched (silent_run after _ ha hrel.1) p
+
+/-- non-vacuity: a TunnelCommunity on a TunnelEndpoint with foreign traffic before and after IS reachable while loaded -/
+example :
+    let c : ClassInfo := (Gen.classes.find? (fun c => c.name == "TunnelCommunity")).getD ⟨"", false, false, false, false, []⟩
+    let w := ((stackWorld 1).run [.add false 3, .addPrefix true 4 8]).run (loadOps c true 1 2 7)
+    (1 ∈ w.touched 7) ∧ (1 ∈ w.touched 9) := by decide
+
 /-! ## 4. Task manager -/
+
+/-- **scheduler_model_matches_source** — the structure of `taskmanager.py` / `requestcache.py` that the hand-written scheduler
+    model mirrors, re-read from the source on every run (tools/gen_c11.py, `task_manager_facts`).  Which model definition
+    leans on which fact:
+    `TM.register` guards and their order — registerRefusesWhenShutdown, registerRaisesWhenActive, registerChecksShutdownFirst;
+    `TM.isActive` — activeMeansTrackedAndNotDone;  `TM.cancel` — cancelUntracksAtOnce;
+    `TM.shutdownOp` (flag first, EVERY tracked task cancelled, `awaiting` = all of them, `shutdownFrom` leaves the caller
+    out) — shutdownSetsFlagBeforeCancelling, cancelAllCoversEveryTrackedName, shutdownWaitsForAllCancelledTasks,
+    shutdownDoesNotWaitForItsCaller and the three cacheShutdown… facts (RequestCache runs on the same model);
+    `TM.replace`/`TM.fireCont` (new task only from the old task's done-callback) — replaceRegistersOnlyFromDoneCallback;
+    `TM.pass` untracking only the finished task itself — doneCallbackUntracksOnlyItself;  no round of a periodic task after
+    its own shutdown — periodicRunnerGetsStopCheck, periodicRunnerStopsAfterShutdown;  `RequestCache.add` after shutdown —
+    cacheAddRefusesWhenShutdown.
+    With this pin the scheduler theorems below are about a model whose guard structure is that of the CURRENT source: if the
+    code loses one of these guards, this theorem stops being provable (and the TaskManager correspondence / oracles supply
+    the failing input). -/
+theorem scheduler_model_matches_source :
+    Gen.schedulerFacts.length = 17 ∧ ∀ f ∈ Gen.schedulerFacts, f.2 = true := by decide
+
 
 /-- **active_name_refused** — while the manager is loaded, registering under a name whose task has not finished is
     refused (`RuntimeError`) and changes nothing, for every state and every kind of task.  (This is the second guard
